@@ -673,6 +673,21 @@ func timeFacts(f *facts) {
 			f.bool["time_error_counted"] = bp(!early && counted)
 		}
 	}
+	f.note["time_zone_cache_keys"] = "rfc3339.go parseRFC3339Timestamp: the key expression of every store into the zone cache (the model has no state between values: a key must not point into the record's pooled buffer)"
+	var keys []string
+	if fd := fn("transform/tparsetime/rfc3339.go", "parseRFC3339Timestamp", ""); fd != nil {
+		inspect(fd.Body, func(n ast.Node) bool {
+			if as, ok := n.(*ast.AssignStmt); ok {
+				for _, l := range as.Lhs {
+					if ix, ok := l.(*ast.IndexExpr); ok && src(ix.X) == "timezoneCache" {
+						keys = append(keys, src(ix.Index))
+					}
+				}
+			}
+			return true
+		})
+	}
+	f.strs["time_zone_cache_keys"] = keys
 }
 
 // ---- C02: upstream client ----
